@@ -139,6 +139,117 @@ func checkArrayAlgebra(p *Program, r *Report, prop string) {
 	}
 	r.Floor("R01.1", "unit sinks (field stores, Impl indexings, Index results)", nSinks, floor)
 
+	// R01.4: strides and the shape they were allocated for travel together
+	r.Rule("R01.4", "stride/shape coherence: wherever a view struct is given its Offset (allocation strides), its OriginalDims comes from the same source: both inherited from the same parent view, or Offset = Offsets(S) and OriginalDims = S for the same S (the contiguity predicate compares Dims with OriginalDims and Offset with products of Dims)")
+	n4 := 0
+	for _, fn := range dataFuncs(p) {
+		if prop == "C03" && relPkg(fnPkg(fn).Path()) != "data/cdata" {
+			if fn.Signature.Recv() == nil || !isCommonStruct(fn.Signature.Recv().Type()) {
+				continue
+			}
+		}
+		type pairT struct{ off, od *ssa.Store }
+		var offs, ods []*ssa.Store
+		eachInstr(fn, func(_ *ssa.BasicBlock, _ int, ins ssa.Instruction) {
+			st, ok := ins.(*ssa.Store)
+			if !ok {
+				return
+			}
+			fa, ok := st.Addr.(*ssa.FieldAddr)
+			if !ok || !isCommonStruct(fa.X.Type()) {
+				return
+			}
+			name, _, _ := fieldName(fa)
+			if name == "Offset" {
+				offs = append(offs, st)
+			}
+			if name == "OriginalDims" {
+				ods = append(ods, st)
+			}
+		})
+		structOf := func(st *ssa.Store) ssa.Value {
+			_, base, _ := fieldName(st.Addr.(*ssa.FieldAddr))
+			return objOf(base)
+		}
+		var order []*pairT
+		for _, o := range offs {
+			pt := &pairT{off: o}
+			for _, d := range ods {
+				if structOf(d) != structOf(o) {
+					continue
+				}
+				if d.Block() == o.Block() {
+					pt.od = d
+				} else if pt.od == nil && d.Block().Dominates(o.Block()) {
+					pt.od = d
+				}
+			}
+			order = append(order, pt)
+		}
+		seenP := map[*pairT]bool{}
+		k := 0
+		for _, pt := range order {
+			if seenP[pt] {
+				continue
+			}
+			seenP[pt] = true
+			n4++
+			k++
+			key := fmt.Sprintf("%s:stride-shape#%d", FuncKey(fn), k)
+			if pt.od == nil {
+				r.Fail("R01.4", key, p.Pos(pt.off.Pos()), "a view is given allocation strides (Offset) but no OriginalDims")
+				continue
+			}
+			srcOf := func(v ssa.Value, field string) (kind string, src ssa.Value) {
+				for _, o := range origins(v) {
+					if o == nil {
+						return "?", nil
+					}
+					if c, okc := o.(*ssa.Call); okc && callName(c.Common()) == "Offsets" {
+						return "fresh", origin1(c.Common().Args[0])
+					}
+					// derived from a parent's field: walk to a load of <parent>.<field>
+					var found ssa.Value
+					dependsOn(o, func(x ssa.Value) bool {
+						if n, b, okf := loadedField(x); okf && n == field {
+							found = objOf(b)
+							return true
+						}
+						return false
+					}, map[ssa.Value]bool{})
+					if found != nil {
+						return "inherited", found
+					}
+					return "value", origin1(o)
+				}
+				return "?", nil
+			}
+			ok1, so := srcOf(pt.off.Val, "Offset")
+			ok2, sd := srcOf(pt.od.Val, "OriginalDims")
+			switch {
+			case ok1 == "fresh":
+				if ok2 == "value" && sd == so || ok2 == "inherited" && false {
+					r.OK("R01.4", fmt.Sprintf("%s: Offset = Offsets(S), OriginalDims = S", FuncKey(fn)))
+				} else {
+					r.Fail("R01.4", key, p.Pos(pt.od.Pos()), "fresh row-major strides Offsets(S) are stored together with an OriginalDims that is not S: Contiguous() then compares the view's extents with the wrong allocation shape (false negatives, or an index out of range when the rank differs)")
+				}
+			case ok1 == "inherited":
+				if ok2 == "inherited" && sd == so {
+					r.OK("R01.4", fmt.Sprintf("%s: Offset and OriginalDims inherited from the same view", FuncKey(fn)))
+				} else {
+					r.Fail("R01.4", key, p.Pos(pt.od.Pos()), "strides inherited from a parent view are stored with an OriginalDims from a different source")
+				}
+			default:
+				r.Undecided("R01.4", key, p.Pos(pt.off.Pos()), "origin of the stored strides not recognised")
+			}
+		}
+	}
+	floor4 := 60
+	if prop == "C03" {
+		floor4 = 25
+	}
+	r.Floor("R01.4", "stride/shape constructions", n4, floor4)
+
 	// R01.2 / R01.3
 	ats := arrayTypes(p)
 	nT := 0
